@@ -150,9 +150,9 @@ fn types_of(kinds: &[u8], typed: bool) -> Vec<LogicalType> {
 // Pull
 // ------------------------------------------------------------------------------------------------
 
-struct ChunksOp {
-    chunks: Vec<DataChunk>,
-    pos: usize,
+pub struct ChunksOp {
+    pub chunks: Vec<DataChunk>,
+    pub pos: usize,
 }
 
 impl pull::Operator for ChunksOp {
@@ -195,60 +195,68 @@ fn pull_agg(f: AggFn, c: Option<usize>) -> pull::AggregateExpr {
     }
 }
 
+/// Builds the pull operator chain of a plan over the chunked table. `wrap(i, op)` is applied to the source
+/// (i = 0) and to the operator built for `plan.ops[i - 1]` (i >= 1); the identity gives the plain chain.
+pub fn build_pull(rows: &[Row], plan: &Plan, cfg: &Cfg, wrap: &dyn Fn(usize, Box<dyn pull::Operator>) -> Box<dyn pull::Operator>) -> Box<dyn pull::Operator> {
+    let store = Arc::new(LpgStore::new());
+    let mut op: Box<dyn pull::Operator> = wrap(0, Box::new(ChunksOp { chunks: make_chunks(rows, &plan.kinds[0], cfg), pos: 0 }));
+    for (i, o) in plan.ops.iter().enumerate() {
+        let in_types = types_of(&plan.kinds[i], cfg.typed);
+        let out_types = types_of(&plan.kinds[i + 1], cfg.typed);
+        let built: Box<dyn pull::Operator> = match o {
+            Op::Filter { col, cmp, lit } => {
+                let expr = FilterExpression::Binary {
+                    left: Box::new(FilterExpression::Variable("x".into())),
+                    op: pull_cmp(*cmp),
+                    right: Box::new(FilterExpression::Literal(lit.to_value())),
+                };
+                let mut vars = HashMap::new();
+                vars.insert("x".to_string(), *col);
+                Box::new(FilterOperator::new(op, Box::new(ExpressionPredicate::new(expr, vars, Arc::clone(&store)))))
+            }
+            Op::Project { cols } => Box::new(ProjectOperator::new(op, cols.iter().map(|c| ProjectExpr::Column(*c)).collect(), out_types)),
+            Op::DistinctAll => Box::new(DistinctOperator::new(op, in_types)),
+            Op::DistinctOn { cols } => Box::new(DistinctOperator::on_columns(op, cols.clone(), in_types)),
+            Op::Sort { keys } => {
+                let ks = keys
+                    .iter()
+                    .map(|k| {
+                        let base = if k.desc { pull::SortKey::descending(k.col) } else { pull::SortKey::ascending(k.col) };
+                        base.with_null_order(if k.nulls_first { pull::NullOrder::NullsFirst } else { pull::NullOrder::NullsLast })
+                    })
+                    .collect();
+                Box::new(SortOperator::new(op, ks, in_types))
+            }
+            Op::Agg { group, aggs } => {
+                let ae: Vec<pull::AggregateExpr> = aggs.iter().map(|(f, c)| pull_agg(*f, *c)).collect();
+                // aggregate outputs: counts Int64, sums Int64 or Float64, avg Float64 → use Any unless min/max/count
+                let ot: Vec<LogicalType> = plan.kinds[i + 1]
+                    .iter()
+                    .map(|k| if cfg.typed { kind_type(*k) } else { LogicalType::Any })
+                    .collect();
+                if group.is_empty() && cfg.variant & 2 == 0 {
+                    Box::new(SimpleAggregateOperator::new(op, ae, ot))
+                } else {
+                    Box::new(HashAggregateOperator::new(op, group.clone(), ae, ot))
+                }
+            }
+            Op::Limit { skip, limit } => {
+                if cfg.variant & 4 != 0 {
+                    let s: Box<dyn pull::Operator> = if *skip > 0 { Box::new(SkipOperator::new(op, *skip, in_types.clone())) } else { op };
+                    Box::new(LimitOperator::new(s, *limit, in_types))
+                } else {
+                    Box::new(LimitSkipOperator::new(op, *skip, *limit, in_types))
+                }
+            }
+        };
+        op = wrap(i + 1, built);
+    }
+    op
+}
+
 pub fn run_pull(rows: &[Row], plan: &Plan, cfg: &Cfg) -> Result<Vec<Row>, Failure> {
     guard("pull chain", || -> Result<Vec<Row>, OpErr> {
-        let store = Arc::new(LpgStore::new());
-        let mut op: Box<dyn pull::Operator> = Box::new(ChunksOp { chunks: make_chunks(rows, &plan.kinds[0], cfg), pos: 0 });
-        for (i, o) in plan.ops.iter().enumerate() {
-            let in_types = types_of(&plan.kinds[i], cfg.typed);
-            let out_types = types_of(&plan.kinds[i + 1], cfg.typed);
-            op = match o {
-                Op::Filter { col, cmp, lit } => {
-                    let expr = FilterExpression::Binary {
-                        left: Box::new(FilterExpression::Variable("x".into())),
-                        op: pull_cmp(*cmp),
-                        right: Box::new(FilterExpression::Literal(lit.to_value())),
-                    };
-                    let mut vars = HashMap::new();
-                    vars.insert("x".to_string(), *col);
-                    Box::new(FilterOperator::new(op, Box::new(ExpressionPredicate::new(expr, vars, Arc::clone(&store)))))
-                }
-                Op::Project { cols } => Box::new(ProjectOperator::new(op, cols.iter().map(|c| ProjectExpr::Column(*c)).collect(), out_types)),
-                Op::DistinctAll => Box::new(DistinctOperator::new(op, in_types)),
-                Op::DistinctOn { cols } => Box::new(DistinctOperator::on_columns(op, cols.clone(), in_types)),
-                Op::Sort { keys } => {
-                    let ks = keys
-                        .iter()
-                        .map(|k| {
-                            let base = if k.desc { pull::SortKey::descending(k.col) } else { pull::SortKey::ascending(k.col) };
-                            base.with_null_order(if k.nulls_first { pull::NullOrder::NullsFirst } else { pull::NullOrder::NullsLast })
-                        })
-                        .collect();
-                    Box::new(SortOperator::new(op, ks, in_types))
-                }
-                Op::Agg { group, aggs } => {
-                    let ae: Vec<pull::AggregateExpr> = aggs.iter().map(|(f, c)| pull_agg(*f, *c)).collect();
-                    // aggregate outputs: counts Int64, sums Int64 or Float64, avg Float64 → use Any unless min/max/count
-                    let ot: Vec<LogicalType> = plan.kinds[i + 1]
-                        .iter()
-                        .map(|k| if cfg.typed { kind_type(*k) } else { LogicalType::Any })
-                        .collect();
-                    if group.is_empty() && cfg.variant & 2 == 0 {
-                        Box::new(SimpleAggregateOperator::new(op, ae, ot))
-                    } else {
-                        Box::new(HashAggregateOperator::new(op, group.clone(), ae, ot))
-                    }
-                }
-                Op::Limit { skip, limit } => {
-                    if cfg.variant & 4 != 0 {
-                        let s: Box<dyn pull::Operator> = if *skip > 0 { Box::new(SkipOperator::new(op, *skip, in_types.clone())) } else { op };
-                        Box::new(LimitOperator::new(s, *limit, in_types))
-                    } else {
-                        Box::new(LimitSkipOperator::new(op, *skip, *limit, in_types))
-                    }
-                }
-            };
-        }
+        let mut op = build_pull(rows, plan, cfg, &|_, op| op);
         let mut out = Vec::new();
         let mut polls = 0usize;
         while let Some(chunk) = op.next()? {
@@ -268,7 +276,7 @@ pub fn run_pull(rows: &[Row], plan: &Plan, cfg: &Cfg) -> Result<Vec<Row>, Failur
 // ------------------------------------------------------------------------------------------------
 
 #[derive(Clone)]
-struct SharedSink(Arc<parking_lot::Mutex<Vec<DataChunk>>>);
+pub struct SharedSink(pub Arc<parking_lot::Mutex<Vec<DataChunk>>>);
 
 impl Sink for SharedSink {
     fn consume(&mut self, chunk: DataChunk) -> Result<bool, OpErr> {
@@ -284,10 +292,10 @@ impl Sink for SharedSink {
 }
 
 /// Turns a non-terminating source loop into an error instead of a hung check.
-struct Bounded {
-    inner: Box<dyn Source>,
-    calls: usize,
-    max: usize,
+pub struct Bounded {
+    pub inner: Box<dyn Source>,
+    pub calls: usize,
+    pub max: usize,
 }
 
 impl Source for Bounded {
